@@ -256,6 +256,8 @@ func EqualVariants(e eco.Eco, v string) []string {
 		switch {
 		case isDigits(tk):
 			repl("0" + tk)
+			repl(tk + ".0")
+			repl(tk + ".0.0")
 			repl(strings.TrimLeft(tk, "0") + "")
 			if tk != "0" {
 				repl("00" + tk)
